@@ -1,17 +1,27 @@
 // C15: Voronoi grids are valid tessellations; the two constructions agree.
 //
 // Drives the REAL NewVoronoiGrid / OldVoronoiGrid on generated generator sets
-// (each grid is built in a forked child, so an abort inside the construction is
-// observed as a violation and does not hide the other cases) and judges the
+// (each grid is built in a forked child, so an abort or hang inside a construction
+// is observed as a violation and does not hide the other cases) and judges the
 // returned cells with an oracle that never looks at how the cells were built:
 //   * planes are recomputed here (long double) from generator pairs / the box,
-//   * partition: volumes > 0, sum of volumes == box volume, wall areas close,
-//   * every face has its twin in the neighbour (area, midpoint),
+//   * partition: volumes > 0, sum of volumes == box volume, wall faces tile the walls,
+//   * every non-negligible face has its twin in the neighbour (area, midpoint),
+//     lies on the bisector plane / wall, inside the box, generator on the inner side,
 //   * closed polyhedra: sum A_f n_f = 0 and V = 1/3 sum A_f dist(generator, plane_f)
-//     (with the planes above: a set of convex supersets of the true cells that
-//     sums to the box volume IS the Voronoi diagram),
+//     (with the planes above: convex supersets of the true cells that sum to the box
+//     volume ARE the Voronoi diagram),
 //   * get_index(x) == brute force nearest generator,
 //   * old == new (volume, centroid, neighbour sets with non-negligible faces).
+//
+// Violation keys: <group>/<construction>/<family>, group = crash (abort, hang,
+// abort-locate) | tessellation (all validity clauses) | locate | agree (old-vs-new);
+// the clause, the regime of the family and a replay command are in the text.
+//
+//   c15_voronoi --seed S --grids N --stride SHARDS [--slowcap n --wallcap n --cpufactor f]
+//               [--only CASE] [--pinned K | --pinned-count]
+//   exploration / debugging: --family F --regime R --n N --aspect A --xparam X --ctor 0|1
+//               --onlyfam F --nofork --verbose --dump FILE --cellA i --cellB j --selftest K
 #include "NewVoronoiGrid.hpp"
 #include "OldVoronoiCell.hpp" // OLDVORONOI_TOLERANCE (documented vertex tolerance of the old construction)
 #include "OldVoronoiGrid.hpp"
@@ -143,7 +153,7 @@ static void make_case(Case &c, uint64_t id, uint64_t idx, vh::Rng r, uint64_t fo
   uint64_t n;
   if (forced_n) n = forced_n;
   else {
-    const bool big = (idx % 20) == 9;
+    const bool big = (idx % 21) == 0 || (idx % 21) == 5; // 1000..2000 generators: uniform and perturbed-lattice sets only (O(n) cost)
     const double u = rsize.uniform();
     if (big) n = rsize.chance(0.5) ? 2000 : (uint64_t)rsize.range(1000, 2000);
     else if (u < 0.03) n = 2;
@@ -566,6 +576,7 @@ static std::string gkey(const char *group, int ctor, const std::string &famkey) 
 // at most 2 printed violations per (case, construction, clause); all are counted
 static std::map< std::string, int > g_clause_count;
 static uint64_t g_all_viol = 0; // every violation, printed or not
+static std::string g_replay;     // command line arguments that reproduce the run (the case is added per violation)
 #define C15_VIOL(group, ctor, cs, clause, ...)                                                    \
   do {                                                                                             \
     std::string k_ = gkey((group), ctor, (cs).famkey);                                                \
@@ -575,8 +586,9 @@ static uint64_t g_all_viol = 0; // every violation, printed or not
     if (g_clause_count[k_ + "/" + cl_ + "/" + std::to_string((cs).id)]++ < 2) {                 \
       char b_[1400];                                                                               \
       std::snprintf(b_, sizeof b_, __VA_ARGS__);                                                   \
-      VH_VIOL(k_.c_str(), (cs).id, "clause=%s n=%zu %s [%s: %s; sides %.4g %.4g %.4g]", cl_.c_str(),    \
-              (cs).pos.size(), b_, (cs).regname.c_str(), (cs).sub.c_str(), (cs).s[0], (cs).s[1], (cs).s[2]);              \
+      VH_VIOL(k_.c_str(), (cs).id, "clause=%s n=%zu %s [%s: %s; sides %.4g %.4g %.4g] {replay: c15_voronoi%s --only %" PRIu64 "}",   \
+              cl_.c_str(), (cs).pos.size(), b_, (cs).regname.c_str(), (cs).sub.c_str(), (cs).s[0], (cs).s[1], (cs).s[2],          \
+              g_replay.c_str(), (cs).id);             \
     } else st.inc("violations_not_printed");                                                      \
   } while (0)
 
@@ -949,23 +961,25 @@ struct Pinned {
   const char *what;
 };
 static const Pinned PINNED[] = {
-    // seed, case, family, regime, n, aspect, xparam (-1 / 0: as drawn for that seed and case with --stride 16)
+    // seed, case, family, regime, n, aspect, xparam (-1 / 0: as drawn for that seed and case with --stride 16; n is given wherever possible
+    // so that the witness does not depend on the size schedule)
     {31, 11, WALL, -1, 12, 0., 0., "12 generators next to the walls: the new construction never returns"},
     {31, 1, WALL, -1, 12, 0., 0., "12 generators, some next to a wall: new construction, volumes do not sum to the box"},
-    {600008, 12, -1, -1, 0, 0., 0., "bcc lattice 3x3x3 (54 generators): new construction returns invalid cells"},
+    {600008, 12, -1, -1, 54, 0., 0., "bcc lattice 3x3x3 (54 generators): new construction returns invalid cells"},
     {3, 1, PLATTICE, 0, 216, 100., 0., "6x6x6 lattice perturbed by 7e-8 spacings in a 1:100 box: new construction, twin faces differ"},
     {3, 30, PLATTICE, 0, 216, 100., 0., "6x6x6 lattice perturbed by ~1e-8 spacings in a 1:100 box: new construction never returns"},
-    {600002, 38, -1, -1, 0, 0., 0., "75 generators in tight blobs: old construction segfaults"},
+    {600002, 38, -1, -1, 75, 0., 0., "75 generators in tight blobs: old construction segfaults"},
     {300016, 3, -1, -1, 245, 0., 0., "245 generators next to the walls of a 1:68 box: old construction segfaults"},
-    {600008, 35, -1, -1, 0, 0., 0., "64 generators in tight blobs: old construction, twin faces differ"},
-    {600003, 8, -1, -1, 0, 0., 0., "2x2x2 lattice perturbed by ~1e-8 spacings: old construction, volumes do not sum to the box"},
-    {600006, 32, -1, -1, 0, 0., 0., "234 uniform generators in an elongated box: old construction, volumes do not sum to the box"},
+    {600008, 35, -1, -1, 64, 0., 0., "64 generators in tight blobs: old construction, twin faces differ"},
+    {600003, 8, -1, -1, 8, 0., 0., "2x2x2 lattice perturbed by ~1e-8 spacings: old construction, volumes do not sum to the box"},
+    {600006, 32, -1, -1, 234, 0., 0., "234 uniform generators in an elongated box: old construction, volumes do not sum to the box"},
     {4, 35, COPLANAR, 1, 350, 70., 0., "350 nearly coplanar generators, 1:70 box: old construction, volumes do not sum to the box"},
     {4, 25, WALL, 2, 800, 0., 0., "800 uniform generators, one next to a wall: old construction, volumes do not sum to the box"},
-    {600009, 3, -1, -1, 0, 0., 0., "18 clustered generators: old and new volumes differ"},
-    {600005, 9, -1, -1, 0, 0., 0., "355 nearly coplanar generators: old and new volumes differ"},
-    {600003, 0, -1, -1, 0, 0., 0., "161 nearly cospherical generators: old and new volumes differ"},
-    {600000, 20, -1, -1, 0, 0., 0., "3x3x3 lattice perturbed by <1e-6 spacings: old and new volumes differ"},
+    {100015, 3, -1, -1, 1048, 0., 0., "1048 uniform generators in a cube: old and new volumes differ by 1e-8"},
+    {600009, 3, -1, -1, 18, 0., 0., "18 clustered generators: old and new volumes differ"},
+    {5, 9, COPLANAR, 0, 355, 60., 0., "355 nearly coplanar generators, 1:60 box: old and new volumes differ"},
+    {600003, 0, -1, -1, 161, 0., 0., "161 nearly cospherical generators: old and new volumes differ"},
+    {600000, 20, -1, -1, 27, 0., 0., "3x3x3 lattice perturbed by <1e-6 spacings: old and new volumes differ"},
 };
 static const size_t NPINNED = sizeof(PINNED) / sizeof(PINNED[0]);
 
@@ -1000,6 +1014,10 @@ int main(int argc, char **argv) {
   }
   const char *dump = vh::arg_str(argc, argv, "--dump", nullptr);
   vh::g_viol_print_limit = 1000; // printing is limited per (case, clause) instead
+  for (int i = 1; i < argc; ++i) {
+    if (!std::strcmp(argv[i], "--only")) { ++i; continue; }
+    g_replay += std::string(" ") + argv[i];
+  }
   vh::Rng master(seed * 1000003ull + 15);
   uint64_t nsample = 0;
 
